@@ -1207,7 +1207,7 @@ func (em *emitter) emitForRange(node *ast.ForRange) {
 	endRange := em.fb.newLabel()
 	target.rangeLabel = rangeLabel
 	em.rangeLabels = append(em.rangeLabels, rangeLabel)
-	em.fb.emitRange(kExpr, exprReg, index, elem, exprType.Kind())
+	em.fb.emitRange(kExpr, exprReg, index, elem, exprType.Kind(), node.Pos())
 	em.fb.emitGoto(endRange)
 	em.fb.enterScope()
 
